@@ -170,6 +170,10 @@ def threaded_session(n_cmds, rng, snapshot="/repo/tests/snapshots/default.snapsh
                         facade._reminders.update()
                     else:
                         spa.refresh()
+                    if rng.random() < 0.4:
+                        # the spa reports a change of its own: the acknowledgement draws from the protocol cycle
+                        pos = rng.randrange(300, 1000)
+                        s.inject(s.peer.push_changes(s.client_parms(), [(pos, bytes([rng.randrange(256), rng.randrange(256)]))]))
                     s.pump(40)
 
             commands(n_cmds // 2)
